@@ -986,7 +986,33 @@ impl Monitor for C15 {
         // case 0: the complete cell table; case k>0: all token strings of length k-1 over {a,b,c,d,e,z}
         if idx == 0 {
             let subset = self.subset;
-            let cs = crate::work::sut(|| cells(subset));
+            let mut cs = crate::work::sut(|| cells(subset));
+            // the same table evaluated from a destructor while the thread is unwinding from a panic
+            // (`std::thread::panicking()` is true there): combinators are plain functions of their
+            // arguments and must not notice
+            {
+                struct InDrop<'a>(&'a std::cell::RefCell<Vec<Cell15>>, bool);
+                impl Drop for InDrop<'_> {
+                    fn drop(&mut self) {
+                        debug_assert!(std::thread::panicking());
+                        *self.0.borrow_mut() = cells(self.1);
+                    }
+                }
+                struct HarnessUnwind;
+                let slot = std::cell::RefCell::new(vec![]);
+                let r = crate::work::sut(|| {
+                    std::panic::catch_unwind(std::panic::AssertUnwindSafe(|| {
+                        let _g = InDrop(&slot, true);
+                        std::panic::resume_unwind(Box::new(HarnessUnwind));
+                    }))
+                });
+                let _ = r;
+                for mut c in slot.into_inner() {
+                    c.name = format!("while-unwinding:{}", c.name);
+                    rep.inc("cells_evaluated_while_unwinding");
+                    cs.push(c);
+                }
+            }
             for (name, size, align, conv) in shape_sizes() {
                 rep.extra.insert(
                     format!("shape:{}", name),
